@@ -49,6 +49,12 @@ SHORT = {
  "r6_C13": ("HashSet::union: `smaller.difference(other)` instead of `difference(larger)`", "receiver smaller than the argument: elements only in the argument are missing from the union"),
  "r6_C14": ("HashMap::is_empty looks at the main table only", "mid-resize map whose main table is empty but leftovers are not: is_empty() true with len() > 0"),
  "r6_C16": ("HashSet::deserialize_in_place returns early when the sequence announces size 0", "empty serialized set into a non-empty destination: old elements survive"),
+ "r7_C02": ("carry: when one straggler would remain after R moves it is moved too (`len() <= 1`)", "key-adding call while exactly R + 1 leftovers remain (needs removals from the old table): 9 moves"),
+ "r7_C04": ("try_grow: `inserts` rounded down (len / R)", "reserve(0)/try_reserve(0)/extend(empty hint) on an exactly full 3- or 7-element map: same-size table, no headroom"),
+ "r7_C06": ("RawTable::remove fast path for the last old-table element: ptr::read + release without erasing", "remove/take/drain_filter of the last leftover with Drop types: dropped by the map and handed back"),
+ "r7_C08": ("RawIter::size_hint: upper bound of the main-table half only", "any iterator on a mid-resize map while old-table elements are still to come"),
+ "r7_C10": ("try_grow: overflow returns Err also on the infallible path; grow() treats Err as unreachable_unchecked", "reserve(n) on a non-empty map with len + headroom + n overflowing: UB (abort in debug, silent return in release)"),
+ "r7_C12": ("RawEntryBuilderMut::search skips `find` when the MAIN table is empty (new RawTable::is_empty)", "raw_entry_mut lookup of an old-table key while the main table holds nothing: Vacant, then a duplicate"),
  "d1": ("revert of fix dbcf4bd", "retain away the old table; shrink_to_fit; insert"),
  "d35": ("revert of fix dc3af20", "replace_entry_with on an old-table element (panic / beyond cursor group)"),
  "d2": ("revert of fix ce142c0", "HashSet<()>: insert; reserve(10); remove"),
